@@ -109,6 +109,63 @@ CLAIMED.update({
                 tech="Laplace-domain elimination in Q(s, params) by CAS normal form + dataflow lint", ref="3/C18"),
 })
 
+CLAIMED.update({
+    "C10": dict(cat="other",
+                text="Affine identities (normal form) prove that the blocks cut by DAE.request_address tile [begin, begin+ndevice*nvar) in "
+                     "the contiguous and the collated layout and that the counter is advanced to the end; alloc/advance pairing and guard "
+                     "agreement in System.set_address; external variable/parameter/service links data-depend on idx2uid(indexer) or "
+                     "group.get(idx=indexer); slot names pair idx.v[k] with a[k]; Model.get and Group.get use one idx->uid map.",
+                note="Per-case runtime facts (device order, idx types) are declined.",
+                tech="affine-identity proof by polynomial normal form + def-use patterns + CFG pairing", ref="3/C10"),
+    "C11": dict(cat="other",
+                text="The coefficient dict literal of calc_pu_coeff (local bases inlined) equals the textbook base ratios for all ten "
+                     "quantity kinds, keys == NumParam flags, all applied; v == vin*k after to_array/set_pu_coeff/restore and on both "
+                     "branches of Model.alter (symbolic state update); time-constant propagation to dae.Tf and TDS.Teye; every exporter "
+                     "read of cache.df_in is dominated by a refresh; restore precedes setup on reset.",
+                note="'Takes effect in the next residual evaluation' beyond these data-flow facts is declined.",
+                tech="normal form on dict literal + symbolic state update + freshness (dominance) rule", ref="3/C11"),
+    "C12": dict(cat="other",
+                text="Cross-table exhaustiveness: every bus attachment field (indexer of a link into Bus) of every power-flow model is in "
+                     "bus_deps and every listed field exists; act() switches off exactly the found devices; connectivity()'s edge table "
+                     "covers every model injecting into >= 2 buses with its own status/addresses, symmetric adjacency, degree test; "
+                     "neutralisation ordering and Bus layout assumption; slack-count classification partitions N; re-check after events.",
+                note="Correctness of the Goderya closure loop for all topologies is declined.",
+                tech="cross-table exhaustiveness against the elaborated model IR + CFG ordering + integer partition enumeration", ref="3/C12"),
+    "C13": dict(cat="other",
+                text="MATPOWER import and export column tables are extracted from the ASTs and proved mutual inverses (same parameter, "
+                     "inverse scale) for every exported column; additive bus-total columns scattered through a device->bus index must "
+                     "accumulate; xlsx/json writer freshness and reader->System.add plumbing; every psse-dyr.yaml entry agrees with the "
+                     "declarations of its destination model (40 entries); format registry.",
+                note="Agreement of RAW parsing with an independent reading of the file is declined (that is testing).",
+                tech="writer/reader table agreement + cardinality-typed dataflow + YAML-vs-IR agreement", ref="3/C13"),
+    "C14": dict(cat="other",
+                text="Typestate/ordering necessary conditions: sentinel t<0, init iff t<0 else resume; the resume path rebuilds nothing and "
+                     "does not move the event pointer; unpack and progress-bar cleanup after the loop; snapshot save strips C objects "
+                     "before dump; load imports pycode, unpickles, repoints views; __getattr__ classes define __getstate__; reset order.",
+                note="Trajectory equality up to discretisation error for every split point is numerical and declined.",
+                tech="typestate / ordering rules on statement CFGs", ref="3/C14"),
+    "C15": dict(cat="other",
+                text="Channel order (t, x, y, z) agrees at every writer/reader site (unpack, lst, npz, plot loader, csv replay); stored "
+                     "rows are fresh arrays keyed by a float copy of t; Output.xidx/yidx are produced once (sorted unique) and consumed "
+                     "unchanged by storage, names and address translation; store only accepted steps, thinning, off-load write-then-reset.",
+                note="Value equality between files and memory at runtime is declined.",
+                tech="writer/reader table agreement + alias rule + CFG ordering", ref="3/C15"),
+    "C19": dict(cat="other",
+                text="idx registry pairing (allocate -> model.add -> group.add, duplicate raises, maps updated together, generated idx never "
+                     "collides, unique parameters raise); BackRef reset-then-fill once per (referrer, idx-param, name) with dangling targets "
+                     "skipped; find-or-add stages; every link_external call site reports lookup errors and parameter links fail setup; the "
+                     "first lookup by idx in each link method is not wrapped in a KeyError-swallowing try.",
+                note="Lookup correctness for arbitrary add sequences is data dependent and declined.",
+                tech="ordering/pairing on CFGs + error-discipline rule", ref="3/C19"),
+    "C20": dict(cat="other",
+                text="Typestate on all constructors that add config (Config -> load(rc) -> add(defaults); 28 constructors, MRO-resolved "
+                     "base calls); options merged into the rc object before the first load and sections created iff absent; _add skips "
+                     "loaded keys; coercion chain; malformed options raise; alternatives enforced; 55 add_extra calls use declared "
+                     "fields; every shipped default keeps value and type through str -> coerce (finite, exhaustive over ~430 fields).",
+                note="'Every representable value' beyond the shipped defaults is declined.",
+                tech="typestate on constructors + table agreement + finite evaluation over shipped defaults", ref="3/C20"),
+})
+
 NOT_YET = {}
 
 NA = {
